@@ -4,6 +4,13 @@ from .c01 import RULE
 
 
 def run(ctx):
+    # the re-gap machine of blockToSeqPair (as repaired) refines PairOf for every non-conflicting block of <=2 (thorough 3)
+    # records from 16 shapes; with the original column rule (own insertions ignored) TLC must find the counterexample
+    ctx.tlc("PairAlign", "MC_PairAlign.cfg" if ctx.quick else "MC_PairAlign_thorough.cfg", workers=8)
+    res = ctx.tlc("PairAlign", "MC_PairAlign_AsCoded.cfg", workers=4, expect_violation=True, tag="pa_ascoded", count=False)
+    if "Refines" not in res["violations"]:
+        from ..common import Machinery
+        raise Machinery("PairAlign with OwnOffsets=FALSE no longer violates Refines: model drifted")
     ctx.rule = RULE + "; C02 judges the toPairAlign runs (plain, windowed, --skip-insertions, --omit-reference, wrapped) and the derived clauses against the real toMultiAlign --pad run"
     samcommon.run(ctx, "C02", 150 if ctx.quick else 2000)
     ctx.assumptions = ["as C01, and the records of one query cover pairwise disjoint reference intervals and do not insert at the same anchor (non-conflicting)"]
